@@ -280,6 +280,10 @@ func (w *World) absorb() {
 		if c == nil || !c.Done || a.absorbed[c] {
 			continue
 		}
+		if c.Pair != nil && !c.Pair.Done && a.P.Alive {
+			a.st = "pairwait" // judged once its concurrent duplicate has been answered too
+			continue
+		}
 		a.absorbed[c] = true
 		if c.Err != nil {
 			// the connection to the API died under a live process: a real client treats that as fatal
